@@ -260,6 +260,20 @@ func (t *translator) ignored(txt string) bool {
 
 type cont func(acts []int, e renv) string
 
+// act looks a statement up in the action table; a key ending in "..." stands for every statement that starts with the
+// text before it (a go statement with a long function literal: the literal is a unit of its own, Lit: k)
+func (t *translator) act(txt string) (int, bool) {
+	if id, ok := t.spec.Actions[txt]; ok {
+		return id, true
+	}
+	for k, id := range t.spec.Actions {
+		if strings.HasSuffix(k, "...") && strings.HasPrefix(txt, strings.TrimSuffix(k, "...")) {
+			return id, true
+		}
+	}
+	return 0, false
+}
+
 // scoped makes a continuation run with the break targets in force where it was created (the statements after a
 // switch are outside that switch)
 func (t *translator) scoped(k cont) cont {
@@ -326,7 +340,10 @@ func (t *translator) stmts(l []ast.Stmt, acts []int, e renv, k cont) string {
 		switch v.Tok {
 		case token.CONTINUE:
 			if v.Label == nil {
-				return leaf(acts, "Cont")
+				// the unit is the body of the loop continue refers to (nested loops are opaque actions): going on to the
+				// next iteration early and reaching the end of the body are the same outcome, written Fall, so that
+				// `if c { continue }; rest` and `if !c { rest }` translate to the same term
+				return leaf(acts, "Fall")
 			}
 		case token.BREAK:
 			if v.Label == nil {
@@ -342,7 +359,7 @@ func (t *translator) stmts(l []ast.Stmt, acts []int, e renv, k cont) string {
 		if v.Init != nil {
 			txt := t.text(v.Init)
 			r, ok := t.spec.Binders[txt]
-			id, isAct := t.spec.Actions[txt]
+			id, isAct := t.act(txt)
 			if !ok && !isAct {
 				panic(trErr{"if-initialiser not in the binder / action table: " + txt})
 			}
@@ -456,14 +473,14 @@ func (t *translator) stmts(l []ast.Stmt, acts []int, e renv, k cont) string {
 		// a nested loop is one opaque, white-listed action identified by its header; its body is a
 		// translation unit of its own (Loop: k)
 		hdr := t.loopHeader(s)
-		if id, ok := t.spec.Actions[hdr]; ok {
+		if id, ok := t.act(hdr); ok {
 			return next(appendAct(acts, id), e)
 		}
 		panic(trErr{"loop not in the action table: " + hdr})
 	default:
 		txt := t.text(s)
 		r, isBinder := t.spec.Binders[txt]
-		id, isAct := t.spec.Actions[txt]
+		id, isAct := t.act(txt)
 		if isBinder || isAct {
 			// a statement may be an action (its effect is recorded) and a binder (it re-binds atoms) at once
 			e2 := e
